@@ -117,8 +117,9 @@ def run_pipeline(rec, rnd, cycles, idx, clear_p):
                 rec.count("histories_with_rival_callers")
             top = ModuleConnector(circ, *mocks.values(), *ext_tb.values(), *([rv] if rv is not None else []))
             sim = PysimSimulator(top, max_cycles=cycles + 80)
-            from .. import txsan
+            from .. import txsan, passive
             txsan.maybe_attach(sim, case)
+            passive.maybe_attach(sim, case)
         except Exception:
             rec.check("builder_accepts_well_formed_pipeline", False, case=case, detail=traceback.format_exc()[-1500:])
             return
